@@ -1,132 +1,1045 @@
-"""Cross-checks of sibling implementations of one interface (Engler-style): the two enum builders, the two enum
-merge functions. Differences outside a frozen allow-list are reported."""
+"""Sibling implementations of one interface: the two enum builders (EnumProperty.build / LiteralEnumProperty.build) and the two
+enum merge functions (_merge_with_enum / _merge_with_literal_enum).
+
+The siblings used to be compared statement for statement.  That is bound to the shape of the code (an extracted helper or an
+inverted guard in ONE sibling is a difference although both still behave alike), so the comparison is replaced by the semantic
+facts it was protecting.  Every fact is stated as a *scenario*: a valuation of the decisions the function takes (how many values
+are left after the nulls are removed, how many distinct types they have, is the class name taken, ...), found by role and never
+by spelling, under which the control flow of the function is simulated (`PathSim`).  The fact then says where every path must
+end (an error, a NoneProperty, a nullable union, the enum itself) - whatever the nesting, the branch order or the polarity of
+the tests.  Each sibling is checked on its own against the same facts.
+"""
 from __future__ import annotations
 
 import ast
-import difflib
-import re
-from typing import Any
+from dataclasses import dataclass
+from typing import Any, Callable
 
-from ..astutil import Locals, names_in, norm, resolved_text, short, where
-from ..core import Report
+from ..astutil import (ERROR_CLASSES, Locals, call_name, calls_in, error_names, local_names, names_in, norm, region, returns_error,
+                       short, where)
+from ..cfg import walk_own
+from ..core import AnalysisError, Report
+from ..pyindex import FuncInfo, dotted
+
+# =====================================================================================================================
+# PathSim: the paths of one function under a partial valuation of its decisions
+# =====================================================================================================================
+
+State = dict  # ("b", local) -> truthiness, ("n", local) -> `is None`, ("v", local) -> expression the local is bound to
 
 
-def _stmts(f: Any) -> list[ast.stmt]:
-    body = list(f.node.body)
-    if body and isinstance(body[0], ast.Expr) and isinstance(body[0].value, ast.Constant):
-        body = body[1:]
-    return body
+@dataclass
+class Event:
+    kind: str                   # "test": an evaluated condition / loop header, "stmt": a simple statement that was executed
+    node: ast.AST
+    state: State                # what was known about the locals when the node was evaluated
+    value: "bool | None" = None  # tests: the known truth value (None: undecided, both arms are explored)
+    taken: "bool | None" = None  # tests: the arm this path took
 
 
-def _alpha(f: Any) -> list[str]:
-    """statements of f with local variables renamed in order of first binding (alpha-equivalence)"""
-    import copy
+@dataclass
+class Path:
+    events: list[Event]
+    end: "ast.stmt | None"      # the Return / Raise that ends the path, None when the body falls through
 
-    order: list[str] = []
-    params = {p.arg for p in f.params}
-    for n in ast.walk(f.node):
-        if isinstance(n, ast.Name) and isinstance(n.ctx, ast.Store) and n.id not in order and n.id not in params:
-            order.append(n.id)
-    # walk order of ast.walk is breadth-first; sort by position instead
-    pos: dict[str, tuple[int, int]] = {}
-    for n in ast.walk(f.node):
-        if isinstance(n, ast.Name) and isinstance(n.ctx, ast.Store) and n.id not in params:
-            p_ = (n.lineno, n.col_offset)
-            if n.id not in pos or p_ < pos[n.id]:
-                pos[n.id] = p_
-    names = sorted(pos, key=lambda k: pos[k])
-    ren = {nm: f"v{i}" for i, nm in enumerate(names)}
+    def stmts(self) -> list[ast.stmt]:
+        return [e.node for e in self.events if e.kind == "stmt"]  # type: ignore[misc]
 
-    class R(ast.NodeTransformer):
-        def visit_Name(self, node: ast.Name) -> ast.AST:
-            if node.id in ren:
-                return ast.copy_location(ast.Name(id=ren[node.id], ctx=node.ctx), node)
-            return node
+    def undecided(self) -> list[ast.AST]:
+        return [e.node for e in self.events if e.kind == "test" and e.value is None]
 
-    out = []
-    for st in _stmts(f):
-        out.append(_normalise(ast.unparse(R().visit(copy.deepcopy(st)))))
+    @property
+    def end_state(self) -> State:
+        return self.events[-1].state if self.events else {}
+
+
+Leaf = Callable[[ast.expr, State, "PathSim"], "bool | None"]
+
+
+class PathSim:
+    """Enumerates the control-flow paths of a function.  Conditions are evaluated in three-valued logic: and / or / not /
+    conditional expressions / `is None` / locals bound to a condition are handled here, everything else is asked from `leaf`
+    (the rule's valuation of the atoms it knows by role).  A condition whose value is not known is explored both ways, so the
+    result over-approximates the paths: it is indifferent to early return vs nested if, to branch order and to the polarity
+    of tests.  Loops are taken zero times and once."""
+
+    LIMIT = 20000
+
+    def __init__(self, fn: ast.AST, leaf: "Leaf | None" = None, none_of: "Leaf | None" = None):
+        self.fn = fn
+        self.leaf = leaf
+        self.none_of = none_of
+        self._done: list[Path] = []
+
+    # -- expressions ----------------------------------------------------------------------------------------------
+    def truth(self, e: ast.expr, st: State) -> "bool | None":
+        if isinstance(e, ast.BoolOp):
+            vals = [self.truth(v, st) for v in e.values]
+            if isinstance(e.op, ast.And):
+                if any(v is False for v in vals):
+                    return False
+                return True if all(v is True for v in vals) else None
+            if any(v is True for v in vals):
+                return True
+            return False if all(v is False for v in vals) else None
+        if isinstance(e, ast.UnaryOp) and isinstance(e.op, ast.Not):
+            v = self.truth(e.operand, st)
+            return None if v is None else not v
+        if isinstance(e, ast.NamedExpr):
+            return self.truth(e.value, st)
+        if isinstance(e, ast.Constant):
+            return bool(e.value)
+        if isinstance(e, ast.IfExp):
+            t = self.truth(e.test, st)
+            if t is not None:
+                return self.truth(e.body if t else e.orelse, st)
+            a, b = self.truth(e.body, st), self.truth(e.orelse, st)
+            return a if a == b else None
+        if isinstance(e, ast.Name):
+            if ("b", e.id) in st:
+                return st[("b", e.id)]
+            if st.get(("n", e.id)) is True:
+                return False
+        if isinstance(e, ast.Compare) and len(e.ops) == 1 and isinstance(e.ops[0], (ast.Is, ast.IsNot)) and \
+                isinstance(e.comparators[0], ast.Constant) and e.comparators[0].value is None:
+            n = self.is_none(e.left, st)
+            if n is not None:
+                return n if isinstance(e.ops[0], ast.Is) else not n
+        return self.leaf(e, st, self) if self.leaf is not None else None
+
+    def is_none(self, e: ast.expr, st: State) -> "bool | None":
+        if isinstance(e, ast.Constant):
+            return e.value is None
+        if isinstance(e, ast.NamedExpr):
+            return self.is_none(e.value, st)
+        if isinstance(e, ast.Name):
+            if ("n", e.id) in st:
+                return st[("n", e.id)]
+            if ("v", e.id) in st and not isinstance(st[("v", e.id)], ast.Name):
+                return self.is_none(st[("v", e.id)], st)
+        if isinstance(e, ast.IfExp):
+            t = self.truth(e.test, st)
+            if t is not None:
+                return self.is_none(e.body if t else e.orelse, st)
+            a, b = self.is_none(e.body, st), self.is_none(e.orelse, st)
+            return a if a == b else None
+        if isinstance(e, (ast.JoinedStr, ast.BinOp, ast.List, ast.Tuple, ast.Set, ast.Dict, ast.ListComp, ast.SetComp, ast.DictComp,
+                          ast.GeneratorExp, ast.Lambda, ast.Compare)):
+            return False
+        if isinstance(e, ast.Call) and isinstance(e.func, ast.Attribute) and isinstance(e.func.value, (ast.Constant, ast.JoinedStr)):
+            return False  # a method of a string literal ("...".format / .join) returns a string
+        return self.none_of(e, st, self) if self.none_of is not None else None
+
+    def resolve(self, e: ast.expr, st: State) -> ast.expr:
+        """what the expression stands for on this path: a local -> the expression it was last bound to, a conditional expression
+        -> the arm selected by the known condition, cast(T, x) -> x"""
+        for _ in range(8):
+            if isinstance(e, ast.Name) and ("v", e.id) in st:
+                e = st[("v", e.id)]
+                break  # bound values are stored resolved
+            if isinstance(e, ast.IfExp):
+                t = self.truth(e.test, st)
+                if t is None:
+                    break
+                e = e.body if t else e.orelse
+                continue
+            if isinstance(e, ast.NamedExpr):
+                e = e.value
+                continue
+            if isinstance(e, ast.Call) and call_name(e).rsplit(".", 1)[-1] == "cast" and len(e.args) == 2:
+                e = e.args[1]
+                continue
+            break
+        return e
+
+    # -- state --------------------------------------------------------------------------------------------------------
+    @staticmethod
+    def _forget(st: State, name: str) -> None:
+        for k in ("b", "n", "v"):
+            st.pop((k, name), None)
+
+    def _bind(self, target: ast.AST, value: "ast.expr | None", before: State, st: State) -> None:
+        if isinstance(target, ast.Name):
+            self._forget(st, target.id)
+            if value is not None:
+                st[("v", target.id)] = self.resolve(value, before)
+                b = self.truth(value, before)
+                if b is not None:
+                    st[("b", target.id)] = b
+                n = self.is_none(value, before)
+                if n is not None:
+                    st[("n", target.id)] = n
+        elif isinstance(target, (ast.Tuple, ast.List)):
+            if isinstance(value, (ast.Tuple, ast.List)) and len(value.elts) == len(target.elts) and \
+                    not any(isinstance(x, ast.Starred) for x in [*value.elts, *target.elts]):
+                for t, v in zip(target.elts, value.elts):
+                    self._bind(t, v, before, st)
+            else:
+                for t in target.elts:
+                    self._bind(t.value if isinstance(t, ast.Starred) else t, None, before, st)
+        # attribute / subscript stores do not change what is known about locals
+
+    # -- statements ---------------------------------------------------------------------------------------------------
+    def paths(self, init: "State | None" = None) -> list[Path]:
+        self._done = []
+        body = getattr(self.fn, "body", [])
+        for _, trail, _sig in self._seq(body, dict(init or {}), []):
+            self._finish(trail, None)
+        return self._done
+
+    def _finish(self, trail: list[Event], end: "ast.stmt | None") -> None:
+        self._done.append(Path(trail, end))
+        if len(self._done) > self.LIMIT:
+            raise AnalysisError(f"path enumeration of {getattr(self.fn, 'name', '?')} exceeds {self.LIMIT} paths")
+
+    def _seq(self, body: list[ast.stmt], st: State, trail: list[Event]) -> list[tuple[State, list[Event], "str | None"]]:
+        cur = [(st, trail)]
+        left: list[tuple[State, list[Event], str | None]] = []
+        for s in body:
+            nxt = []
+            for st_, tr_ in cur:
+                for st2, tr2, sig in self._stmt(s, st_, tr_):
+                    if sig is None:
+                        nxt.append((st2, tr2))
+                    else:
+                        left.append((st2, tr2, sig))
+            cur = nxt
+            if not cur:
+                break
+        return [(a, b, None) for a, b in cur] + left
+
+    def _branch(self, test: ast.expr, st: State, taken: bool) -> State:
+        """what taking this arm tells about a local that is tested directly"""
+        pol = taken
+        e = test
+        while isinstance(e, ast.UnaryOp) and isinstance(e.op, ast.Not):
+            e, pol = e.operand, not pol
+        if isinstance(e, ast.Name):
+            st = dict(st)
+            st[("b", e.id)] = pol
+        elif isinstance(e, ast.Compare) and len(e.ops) == 1 and isinstance(e.ops[0], (ast.Is, ast.IsNot)) and isinstance(e.left, ast.Name) \
+                and isinstance(e.comparators[0], ast.Constant) and e.comparators[0].value is None:
+            st = dict(st)
+            st[("n", e.left.id)] = pol if isinstance(e.ops[0], ast.Is) else not pol
+        return st
+
+    def _stmt(self, s: ast.stmt, st: State, trail: list[Event]) -> list[tuple[State, list[Event], "str | None"]]:
+        if isinstance(s, ast.Expr) and isinstance(s.value, ast.Constant):
+            return [(st, trail, None)]  # docstring
+        if isinstance(s, ast.If):
+            v = self.truth(s.test, st)
+            out = []
+            if v is not False:
+                out += self._seq(s.body, self._branch(s.test, st, True) if v is None else st, trail + [Event("test", s.test, st, v, True)])
+            if v is not True:
+                out += self._seq(s.orelse, self._branch(s.test, st, False) if v is None else st, trail + [Event("test", s.test, st, v, False)])
+            return out
+        if isinstance(s, (ast.For, ast.AsyncFor)):
+            ev = Event("test", s.iter, st, None, None)
+            out = self._seq(s.orelse, st, trail + [ev])  # no iteration
+            st1 = dict(st)
+            self._bind(s.target, None, st, st1)
+            for st2, tr2, sig in self._seq(s.body, st1, trail + [ev]):
+                if sig in (None, "continue", "break"):
+                    out.append((st2, tr2, None))
+            return out
+        if isinstance(s, ast.While):
+            v = self.truth(s.test, st)
+            out = []
+            if v is not True:
+                out += self._seq(s.orelse, st, trail + [Event("test", s.test, st, v, False)])
+            if v is not False:
+                for st2, tr2, sig in self._seq(s.body, st, trail + [Event("test", s.test, st, v, True)]):
+                    if sig in (None, "continue", "break"):
+                        out.append((st2, tr2, None))
+            return out
+        if isinstance(s, ast.Try):
+            res = []
+            for st2, tr2, sig in self._seq(s.body, st, trail):
+                if sig is None and s.orelse:
+                    res += self._seq(s.orelse, st2, tr2)
+                else:
+                    res.append((st2, tr2, sig))
+            for h in s.handlers:
+                st1 = dict(st)
+                if h.name:
+                    self._forget(st1, h.name)
+                res += self._seq(h.body, st1, trail)
+            if not s.finalbody:
+                return res
+            out = []
+            for st2, tr2, sig in res:
+                if sig is None:
+                    out += self._seq(s.finalbody, st2, tr2)
+                else:
+                    out.append((st2, tr2, sig))
+            return out
+        if isinstance(s, (ast.With, ast.AsyncWith)):
+            st1 = dict(st)
+            tr = list(trail)
+            for item in s.items:
+                tr.append(Event("test", item.context_expr, st, None, None))
+                if item.optional_vars is not None:
+                    self._bind(item.optional_vars, None, st, st1)
+            return self._seq(s.body, st1, tr)
+        if isinstance(s, ast.Match):
+            out = []
+            ev = Event("test", s.subject, st, None, None)
+            for c in s.cases:
+                st1 = dict(st)
+                for n in ast.walk(c.pattern):
+                    nm = getattr(n, "name", None)
+                    if isinstance(nm, str):
+                        self._forget(st1, nm)
+                out += self._seq(c.body, st1, trail + [ev])
+            return out + [(st, trail + [ev], None)]
+        if isinstance(s, (ast.Return, ast.Raise)):
+            self._finish(trail + [Event("stmt", s, st)], s)
+            return []
+        if isinstance(s, ast.Break):
+            return [(st, trail, "break")]
+        if isinstance(s, ast.Continue):
+            return [(st, trail, "continue")]
+        if isinstance(s, (ast.FunctionDef, ast.AsyncFunctionDef, ast.ClassDef, ast.Import, ast.ImportFrom, ast.Pass, ast.Global, ast.Nonlocal)):
+            return [(st, trail, None)]
+        st1 = st
+        if isinstance(s, ast.Assign):
+            st1 = dict(st)
+            for t in s.targets:
+                self._bind(t, s.value, st, st1)
+        elif isinstance(s, ast.AnnAssign):
+            if s.value is not None:
+                st1 = dict(st)
+                self._bind(s.target, s.value, st, st1)
+        elif isinstance(s, ast.AugAssign):
+            st1 = dict(st)
+            self._bind(s.target, None, st, st1)
+        else:
+            # a walrus inside any other statement
+            for n in walk_own(s):
+                if isinstance(n, ast.NamedExpr):
+                    st1 = dict(st1)
+                    self._bind(n.target, n.value, st, st1)
+        return [(st1, trail + [Event("stmt", s, st)], None)]
+
+
+# =====================================================================================================================
+# small evaluators shared by the scenarios
+# =====================================================================================================================
+
+def _cmp(op: ast.cmpop, a: Any, b: Any) -> "bool | None":
+    if isinstance(op, ast.Lt):
+        return a < b
+    if isinstance(op, ast.LtE):
+        return a <= b
+    if isinstance(op, ast.Gt):
+        return a > b
+    if isinstance(op, ast.GtE):
+        return a >= b
+    if isinstance(op, (ast.Eq, ast.Is)):
+        return a == b
+    if isinstance(op, (ast.NotEq, ast.IsNot)):
+        return a != b
+    return None
+
+
+def _chain(e: ast.Compare, val: Callable[[ast.expr], Any]) -> "bool | None":
+    """a comparison chain whose operands all have a value under `val` (None: not known)"""
+    xs = [val(x) for x in [e.left, *e.comparators]]
+    if any(x is None for x in xs):
+        return None
+    res = True
+    for op, a, b in zip(e.ops, xs, xs[1:]):
+        r = _cmp(op, a, b)
+        if r is None:
+            return None
+        res = res and r
+    return res
+
+
+def _strip(e: ast.expr) -> ast.expr:
+    """the collection an expression passes on unchanged: `x or []`, list(x), tuple(x), cast(T, x), (y := x)"""
+    while True:
+        if isinstance(e, ast.BoolOp) and isinstance(e.op, ast.Or) and len(e.values) == 2 and isinstance(e.values[1], (ast.List, ast.Tuple)) \
+                and not e.values[1].elts:
+            e = e.values[0]
+        elif isinstance(e, ast.Call) and not e.keywords and call_name(e).rsplit(".", 1)[-1] in ("list", "tuple") and len(e.args) == 1:
+            e = e.args[0]
+        elif isinstance(e, ast.Call) and not e.keywords and call_name(e).rsplit(".", 1)[-1] == "cast" and len(e.args) == 2:
+            e = e.args[1]
+        elif isinstance(e, ast.NamedExpr):
+            e = e.value
+        else:
+            return e
+
+
+def _is_none_test(e: ast.expr, var: str) -> "bool | None":
+    """True: e is `var is None`, False: e is `var is not None` (also through `not`), None: something else"""
+    pol = True
+    while isinstance(e, ast.UnaryOp) and isinstance(e.op, ast.Not):
+        e, pol = e.operand, not pol
+    if isinstance(e, ast.Compare) and len(e.ops) == 1 and isinstance(e.ops[0], (ast.Is, ast.IsNot)) and isinstance(e.left, ast.Name) and \
+            e.left.id == var and isinstance(e.comparators[0], ast.Constant) and e.comparators[0].value is None:
+        return pol if isinstance(e.ops[0], ast.Is) else not pol
+    return None
+
+
+def _class_names(e: ast.expr) -> list[str]:
+    xs = e.elts if isinstance(e, (ast.Tuple, ast.List, ast.Set)) else [e]
+    return [(dotted(x) or norm(x)).rsplit(".", 1)[-1] for x in xs]
+
+
+def _private_call(e: ast.AST) -> bool:
+    return any(call_name(c).rsplit(".", 1)[-1].startswith("_") and not call_name(c).rsplit(".", 1)[-1].startswith("__") for c in calls_in(e))
+
+
+def _claim_all(rep: Report, rid: str, key: str, paths: list[Path], good: Callable[[Path], bool], relevant: Callable[[ast.AST], bool],
+               message: str, where_: str, rhs: str) -> None:
+    """every path of the scenario satisfies `good`.  A path that does not, but only exists because a decision that matters could
+    not be evaluated, is not a violation: the fact cannot be decided (exit 2)."""
+    if not paths:
+        raise AnalysisError(f"anchor missing: no path for the scenario of {key}")
+    bad = [p for p in paths if not good(p)]
+    decided = [p for p in bad if not any(relevant(t) for t in p.undecided())]
+    if bad and not decided:
+        t = next(t for p in bad for t in p.undecided() if relevant(t))
+        raise AnalysisError(f"anchor missing: {key}: cannot evaluate the decision `{norm(t)[:80]}`")
+    rep.check(not decided, rid, key, message, where_, lhs=[_end_text(p) for p in decided[:2]], rhs=rhs)
+
+
+def _end_text(p: Path) -> str:
+    return norm(p.end)[:90] if p.end is not None else "<falls through>"
+
+
+# =====================================================================================================================
+# the two enum builders
+# =====================================================================================================================
+
+def _filters_over(fn: ast.AST, is_src: Callable[[ast.expr], bool]) -> list[tuple[ast.AST, bool, str]]:
+    """constructs of fn that drop elements of the source collection: (node, drops only by identity with None, text).
+    Comprehensions with conditions, filter(pred, src), loops over src with a conditional append / continue."""
+    out: list[tuple[ast.AST, bool, str]] = []
+    for n in ast.walk(fn):
+        if isinstance(n, (ast.ListComp, ast.SetComp, ast.GeneratorExp, ast.DictComp)):
+            for g in n.generators:
+                if is_src(g.iter) and g.ifs:
+                    ok = isinstance(g.target, ast.Name) and all(_keeps_non_null(c, g.target.id) for c in g.ifs)
+                    out.append((n, ok, norm(n)))
+        elif isinstance(n, ast.Call) and call_name(n).rsplit(".", 1)[-1] in ("filter", "filterfalse") and len(n.args) == 2 and is_src(n.args[1]):
+            p = n.args[0]
+            ok = call_name(n).rsplit(".", 1)[-1] == "filter" and isinstance(p, ast.Lambda) and len(p.args.args) == 1 and \
+                _keeps_non_null(p.body, p.args.args[0].arg)
+            out.append((n, ok, norm(n)))
+        elif isinstance(n, (ast.For, ast.AsyncFor)) and is_src(n.iter) and isinstance(n.target, ast.Name):
+            conds = [s for s in n.body if isinstance(s, ast.If) and n.target.id in names_in(s.test)]
+            for s in conds:
+                skips = any(isinstance(x, ast.Continue) for x in s.body)
+                t = _is_none_test(s.test, n.target.id)
+                ok = (t is True) if skips else (t is False and not s.orelse)
+                out.append((s, ok, norm(s.test)))
     return out
 
 
-def _normalise(src: str) -> str:
-    src = src.replace("LiteralEnumProperty", "K").replace("EnumProperty", "K")
-    src = src.replace("_merge_with_literal_enum", "_merge_with_K").replace("_merge_with_enum", "_merge_with_K")
-    src = src.replace("literal enum", "enum")
-    return src
+def _keeps_non_null(cond: ast.expr, var: str) -> bool:
+    parts = cond.values if isinstance(cond, ast.BoolOp) and isinstance(cond.op, ast.And) else [cond]
+    return all(_is_none_test(p, var) is False for p in parts)
+
+
+class _Builder:
+    """roles of the locals of one enum builder (found from what they are bound from, never from their spelling)"""
+
+    def __init__(self, ix: Any, f: FuncInfo, cls_name: str):
+        self.ix, self.f, self.K = ix, f, cls_name
+        self.fn = f.node
+        self.params = {p.arg for p in f.params}
+        self.lc = Locals(self.fn)
+        self.locals = local_names(self.fn)
+        self.helpers = {h.name: h for h in region(ix, f)[1:]}
+        self.err = error_names(self.fn)
+        # E: the schema's enum list; L: the list without nulls; T: the set of member types; ty: the single member type
+        self.E = self._closure(lambda v: self._enum_read(_strip(v)))
+        self.filters = _filters_over(self.fn, self.is_E)
+        self.filter_helpers: set[str] = set()
+        for h in self.helpers.values():      # a helper that receives the enum list and filters it
+            for c in calls_in(self.fn):
+                if call_name(c).rsplit(".", 1)[-1] != h.name:
+                    continue
+                hp = [p.arg for p in h.params if p.arg not in ("self", "cls")]
+                passed = {hp[i] for i, a in enumerate(c.args) if i < len(hp) and self.is_E(a)} | {k.arg for k in c.keywords if k.arg and self.is_E(k.value)}
+                if passed:
+                    got = _filters_over(h.node, lambda e, passed=passed: isinstance(_strip(e), ast.Name) and _strip(e).id in passed)  # type: ignore[union-attr]
+                    if got:
+                        self.filters += got
+                        self.filter_helpers.add(h.name)
+        fnodes = {id(n) for n, _, _ in self.filters}
+        self.L = self._closure(lambda v: id(_strip(v)) in fnodes or (isinstance(_strip(v), ast.Call) and
+                                                                     call_name(_strip(v)).rsplit(".", 1)[-1] in self.filter_helpers))
+        # loops that append the kept elements: the list the loop appends to
+        cond_ids = {id(n) for n, _, _ in self.filters if isinstance(n, ast.If)}
+        for loop in ast.walk(self.fn):
+            if isinstance(loop, (ast.For, ast.AsyncFor)) and any(id(x) in cond_ids for x in loop.body):
+                for c in calls_in(loop):
+                    if isinstance(c.func, ast.Attribute) and c.func.attr in ("append", "add") and isinstance(c.func.value, ast.Name):
+                        self.L.add(c.func.value.id)
+        self.L |= self._closure(lambda v: False, set(self.L))
+        self.T = {nm for nm, ds in self.lc.defs.items() for _, _, v in ds if v is not None and self._types_of_L(v)}
+        self.ty = {nm for nm, ds in self.lc.defs.items() for k, _, v in ds if v is not None and k.startswith("assign") and
+                   names_in(v) & self.T and not (isinstance(v, ast.Call) and call_name(v) == "len") and nm not in self.T and
+                   not isinstance(v, (ast.Compare, ast.BoolOp))}
+        self.existing = {nm for nm, ds in self.lc.defs.items() for _, _, v in ds if v is not None and self._registry_read(v) is not None}
+        self.conv = {nm for nm, ds in self.lc.defs.items() for _, _, v in ds if isinstance(v, ast.Call) and isinstance(v.func, ast.Attribute)
+                     and v.func.attr == "convert_value"}
+        self.ctors = [c for c in calls_in(self.fn) if call_name(c) in (cls_name, "cls") and any(k.arg == "values" for k in c.keywords)]
+        # the member table being built (the `values=` argument of the construction); it maps names to values when the class
+        # declares `values` as a dict
+        self.tables = {kw.value.id for c in self.ctors for kw in c.keywords if kw.arg == "values" and isinstance(kw.value, ast.Name)}
+        fld = ix.find_field(ix.cls(cls_name), "values")
+        self.mapping = fld is not None and fld[1] is not None and norm(fld[1]).lower().startswith(("dict", "mapping", "typing.dict"))
+
+    # -- role predicates -----------------------------------------------------------------------------------------------
+    def _closure(self, seed: Callable[[ast.expr], bool], start: "set[str] | None" = None) -> set[str]:
+        names: set[str] = set(start or ())
+        changed = True
+        while changed:
+            changed = False
+            for nm, ds in self.lc.defs.items():
+                if nm in names:
+                    continue
+                for k, _, v in ds:
+                    if v is None or not k.startswith("assign") or "[" in k:
+                        continue
+                    s = _strip(v)
+                    if seed(v) or (isinstance(s, ast.Name) and s.id in names):
+                        names.add(nm)
+                        changed = True
+                        break
+        return names
+
+    def _enum_read(self, e: ast.expr) -> bool:
+        return isinstance(e, ast.Attribute) and e.attr == "enum" and isinstance(e.value, ast.Name) and e.value.id in self.params
+
+    def is_E(self, e: ast.expr) -> bool:
+        s = _strip(e)
+        return self._enum_read(s) or (isinstance(s, ast.Name) and s.id in self.E)
+
+    def is_L(self, e: ast.expr) -> bool:
+        s = _strip(e)
+        return isinstance(s, ast.Name) and s.id in self.L
+
+    def _types_of_L(self, v: ast.expr) -> bool:
+        has_type = any(isinstance(n, ast.Name) and n.id == "type" for n in ast.walk(v))
+        return has_type and bool(names_in(v) & self.L) and not isinstance(v, (ast.Compare, ast.BoolOp))
+
+    def table_view(self, e: ast.expr) -> "tuple[str, str] | None":
+        """(what of the member table the expression shows, whose table): 'full' = names and values, 'keys' = member names only,
+        'vals' = values only; 'new' = the table being built, 'old' = the table of the class that holds the name.  A table that maps
+        names to values shows only its names when it is iterated (set(d), sorted(d), list(d), d.keys())."""
+        if isinstance(e, ast.Name) and e.id in self.tables:
+            return ("full", "new")
+        if isinstance(e, ast.Attribute) and e.attr == "values" and isinstance(e.value, ast.Name) and e.value.id in self.existing:
+            return ("full", "old")
+        if isinstance(e, ast.Call) and not e.keywords:
+            if isinstance(e.func, ast.Attribute) and not e.args and e.func.attr in ("items", "keys", "values", "copy"):
+                inner = self.table_view(e.func.value)
+                if inner is not None and inner[0] == "full":
+                    return ({"items": "full", "copy": "full", "keys": "keys", "values": "vals"}[e.func.attr], inner[1])
+                return None
+            fn = call_name(e)
+            if fn in ("set", "frozenset", "sorted", "list", "tuple", "dict") and len(e.args) == 1:
+                inner = self.table_view(e.args[0])
+                if inner is None:
+                    return None
+                if isinstance(e.args[0], ast.Call) or fn == "dict" or not self.mapping:
+                    return inner          # a view of items / keys / values keeps what it shows; dict(d) is d
+                return ("keys", inner[1])  # iterating the mapping itself
+        return None
+
+    @staticmethod
+    def _registry_read(v: ast.expr) -> "str | None":
+        """'item' for <x>.classes_by_name[k], 'get' for <x>.classes_by_name.get(k)"""
+        if isinstance(v, ast.Subscript) and (dotted(v.value) or "").rsplit(".", 1)[-1] == "classes_by_name":
+            return "item"
+        if isinstance(v, ast.Call) and isinstance(v.func, ast.Attribute) and v.func.attr == "get" and \
+                (dotted(v.func.value) or "").rsplit(".", 1)[-1] == "classes_by_name":
+            return "get"
+        return None
+
+    # -- valuation of the decisions under a scenario ---------------------------------------------------------------------
+    def sim(self, sc: dict[str, Any]) -> PathSim:
+        def size(e: ast.expr, st: State, sim: PathSim) -> "int | None":
+            if isinstance(e, ast.Constant) and isinstance(e.value, int) and not isinstance(e.value, bool):
+                return e.value
+            if isinstance(e, ast.Name) and ("v", e.id) in st:
+                e = st[("v", e.id)]
+            if isinstance(e, ast.Call) and call_name(e) == "len" and len(e.args) == 1:
+                a = _strip(e.args[0])
+                for _ in range(4):
+                    if isinstance(a, ast.Name):
+                        if a.id in self.L:
+                            return sc.get("nL")
+                        if a.id in self.E:
+                            return sc.get("nE")
+                        if a.id in self.T:
+                            return sc.get("nT")
+                        if ("v", a.id) in st:
+                            a = _strip(st[("v", a.id)])
+                            continue
+                    break
+                if self._enum_read(a):
+                    return sc.get("nE")
+            return None
+
+        def sym(e: ast.expr, st: State) -> Any:
+            """the member type (scenario) or the builtin types it is compared with"""
+            if isinstance(e, ast.Name):
+                if e.id in self.ty:
+                    return sc.get("type")
+                if e.id in ("str", "int", "float", "bool", "bytes", "list", "dict") and e.id not in self.locals:
+                    return e.id
+            if isinstance(e, (ast.Tuple, ast.List, ast.Set)):
+                xs = [sym(x, st) for x in e.elts]
+                return None if any(x is None for x in xs) else tuple(xs)
+            return None
+
+        def leaf(e: ast.expr, st: State, sim: PathSim) -> "bool | None":
+            if isinstance(e, ast.Name):
+                for role, key in ((self.L, "nL"), (self.E, "nE"), (self.T, "nT")):
+                    if e.id in role and sc.get(key) is not None:
+                        return sc[key] > 0
+                if e.id in self.existing:
+                    return sc.get("P")
+                return None
+            if isinstance(e, ast.Compare):
+                r = _chain(e, lambda x: size(x, st, sim))
+                if r is not None:
+                    return r
+                if len(e.ops) == 1:
+                    op, a, b = e.ops[0], e.left, e.comparators[0]
+                    # the single member type against the supported types
+                    sa_, sb_ = sym(a, st), sym(b, st)
+                    if sa_ is not None and sb_ is not None and (isinstance(sa_, str) != isinstance(sb_, str) or isinstance(op, (ast.Is, ast.IsNot, ast.Eq, ast.NotEq))):
+                        if isinstance(op, (ast.In, ast.NotIn)) and isinstance(sb_, tuple):
+                            return (sa_ in sb_) == isinstance(op, ast.In)
+                        if isinstance(op, (ast.Is, ast.IsNot, ast.Eq, ast.NotEq)) and isinstance(sa_, str) and isinstance(sb_, str):
+                            return _cmp(op, sa_, sb_)
+                    # is the class name taken
+                    if isinstance(op, (ast.In, ast.NotIn)) and (dotted(b) or "").rsplit(".", 1)[-1] == "classes_by_name" and sc.get("P") is not None:
+                        return sc["P"] == isinstance(op, ast.In)
+                    # the new member table against the one of the class that holds the name
+                    if isinstance(op, (ast.Eq, ast.NotEq)) and sc.get("B") is not None:
+                        va, vb = self.table_view(a), self.table_view(b)
+                        if va is not None and vb is not None and va[0] == vb[0] and {va[1], vb[1]} == {"new", "old"}:
+                            # B: False = same members, True = other member names, "values" = same names with other values
+                            differ = sc["B"] is True or (sc["B"] == "values" and va[0] in ("full", "vals"))
+                            return differ == isinstance(op, ast.NotEq)
+                return None
+            if isinstance(e, ast.Call) and call_name(e) == "isinstance" and len(e.args) == 2 and isinstance(e.args[0], ast.Name):
+                x, kinds = e.args[0].id, _class_names(e.args[1])
+                if x in self.existing and (self.K in kinds or "cls" in kinds):
+                    if sc.get("P") is False:
+                        return False
+                    return sc.get("A")
+                if x in self.conv and set(kinds) & ERROR_CLASSES:
+                    return sc.get("D")
+            return None
+
+        def none_of(e: ast.expr, st: State, sim: PathSim) -> "bool | None":
+            kind = self._registry_read(e)
+            if kind == "item":
+                return False
+            if kind == "get" and sc.get("P") is not None:
+                return not sc["P"]
+            return None
+
+        return PathSim(self.fn, leaf, none_of)
+
+    def relevant(self, t: ast.AST) -> bool:
+        return bool(names_in(t) & self.locals) or _private_call(t)
+
+    # -- where a path ends ---------------------------------------------------------------------------------------------
+    def calls_of(self, node: ast.AST) -> set[str]:
+        """names called by the node, and by the private helpers of the builder that it calls"""
+        out: set[str] = set()
+        todo = [node]
+        seen: set[str] = set()
+        while todo:
+            n = todo.pop()
+            for c in calls_in(n):
+                cn = call_name(c)
+                out.add(cn)
+                last = cn.rsplit(".", 1)[-1]
+                if last in self.helpers and last not in seen:
+                    seen.add(last)
+                    todo.append(self.helpers[last].node)
+        return out
+
+    def end_kind(self, p: Path) -> str:
+        s = p.end
+        if s is None:
+            return "fall"
+        if isinstance(s, ast.Raise):
+            return "raise"
+        if returns_error(s, self.err):
+            return "error"
+        assert isinstance(s, ast.Return)
+        v = s.value
+        first = v.elts[0] if isinstance(v, ast.Tuple) and v.elts else v
+        r = first
+        if isinstance(first, ast.Name) and ("v", first.id) in p.end_state:
+            r = p.end_state[("v", first.id)]
+        calls = self.calls_of(r) if r is not None else set()
+        if any(c.rsplit(".", 1)[0].endswith("NoneProperty") or c == "NoneProperty" for c in calls):
+            return "none"
+        if any(c.rsplit(".", 1)[0].endswith("UnionProperty") or c == "UnionProperty" for c in calls):
+            return "union"
+        return "value"
+
+    def constructs(self, p: Path) -> bool:
+        ids = {id(c) for c in self.ctors}
+        return any(id(n) in ids for s in p.stmts() for n in walk_own(s))
+
+    def registers(self, p: Path) -> bool:
+        """the path passes a statement that builds the Schemas with a new classes_by_name table, or stores into the table"""
+        for s in p.stmts():
+            for n in walk_own(s):
+                if isinstance(n, ast.keyword) and n.arg == "classes_by_name":
+                    return True
+                if isinstance(n, ast.Subscript) and isinstance(n.ctx, ast.Store) and (dotted(n.value) or "").rsplit(".", 1)[-1] == "classes_by_name":
+                    return True
+        return False
 
 
 def enum_builder_parity(rep: Report, ctx: Any, rid: str) -> None:
+    """Entry point kept under its historical name: the facts below are checked on each builder independently."""
     ix = ctx.py
-    rep.rule(rid, "EnumProperty.build and LiteralEnumProperty.build are statement-for-statement equal modulo the class name and "
-                  "the representation of `values`; null members are extracted by identity (`is not None`) in both")
-    a = ix.cls("EnumProperty").methods.get("build")
-    b = ix.cls("LiteralEnumProperty").methods.get("build")
-    rep.require(a and b, "enum builders")
-    sa_, sb_ = _alpha(a), _alpha(b)
-    rep.floor("enum_builder_statements", min(len(sa_), len(sb_)), 12)
-    vname_a = next((x.split(" ")[0].split(":")[0] for x in sa_ if "values_from_list" in x), "values")
-    allowed = re.compile(r"^(values|" + re.escape(vname_a) + r")\b.*=")  # the one intended difference: dict of named members vs set of values
-    sm = difflib.SequenceMatcher(a=sa_, b=sb_, autojunk=False)
-    n_diff = 0
-    for tag, i1, i2, j1, j2 in sm.get_opcodes():
-        if tag == "equal":
-            for k in range(i1, i2):
-                rep.ok(rid, f"enum-builders::stmt[{sa_[k][:50]}]", "EnumProperty.build", "= LiteralEnumProperty.build")
-            continue
-        left, right = sa_[i1:i2], sb_[j1:j2]
-        if all(allowed.match(x) for x in left + right):
-            rep.ok(rid, "enum-builders::values-representation", left[:1], right[:1], nontrivial=False)
-            continue
-        n_diff += 1
-        rep.fail(rid, f"enum-builders::differs[{(left or right)[0][:60]}]",
-                 "the two enum builders disagree outside the values representation: "
-                 f"EnumProperty.build has {left[:2]}, LiteralEnumProperty.build has {right[:2]}",
-                 where(a, a.node) + " / " + where(b, b.node), lhs=left[:2], rhs=right[:2])
-    # null extraction by identity in both
-    for f in (a, b):
-        # the extraction (any spelling, any form): the first assignment computed from the schema's `enum` list, which is read either
-        # directly (data.enum) or through locals bound to it (`enum = data.enum or []`)
-        lc = Locals(f.node)
-        enum_l = set(lc.bound_from(lambda v: v.startswith("data.enum"), "assign"))
-        cands = [n for n in ast.walk(f.node) if isinstance(n, ast.Assign) and not norm(n.value).startswith("data.enum") and isinstance(n.targets[0], ast.Name)
-                 and (names_in(n.value) & enum_l or "data.enum" in norm(n.value))]
-        cands.sort(key=lambda n: n.lineno)
-        rep.require(cands, f"null extraction in {short(f)}")
-        n = cands[0]
-        v = n.value
-        ok = isinstance(v, ast.ListComp) and len(v.generators) == 1 and len(v.generators[0].ifs) == 1 and \
-            isinstance(v.generators[0].ifs[0], ast.Compare) and isinstance(v.generators[0].ifs[0].ops[0], ast.IsNot) and \
-            isinstance(v.generators[0].ifs[0].comparators[0], ast.Constant) and v.generators[0].ifs[0].comparators[0].value is None \
-            and norm(v.elt) == norm(v.generators[0].target) and norm(v.generators[0].ifs[0].left) == norm(v.elt)
-        rep.check(ok, rid, f"{short(f)}::null-extraction",
+    rep.rule(rid, "each enum builder (EnumProperty.build, LiteralEnumProperty.build), on its own: nulls are removed from the value "
+                  "list by identity with None only; a list of nulls only becomes a NoneProperty; values of more than one type "
+                  "or of a type other than str/int are rejected; a null member makes a nullable union (with a null-typed "
+                  "member schema), never an enum member; the members are computed from the null-free list; a class name that "
+                  "is taken is reused only by an enum of the same class with the same members; the default goes through "
+                  "convert_value and a rejected default returns the error without registering the class")
+    n_facts = 0
+    for cname in ("EnumProperty", "LiteralEnumProperty"):
+        f = ix.cls(cname).methods.get("build")
+        rep.require(f, f"{cname}.build")
+        b = _Builder(ix, f, cname)
+        w = where(f, f.node)
+        k = short(f)
+        # ---- nulls are dropped by identity ---------------------------------------------------------------------------
+        rep.require(b.filters, f"null extraction in {k}")
+        bad = [(n, t) for n, ok, t in b.filters if not ok]
+        rep.check(not bad, rid, f"{k}::null-extraction",
                   "members are dropped by something other than identity with None (falsy members such as 0 or '' would be "
-                  "treated as null)", where(f, n), lhs=norm(v)[:80], rhs="[v for v in enum if v is not None]")
+                  "treated as null)", where(f, bad[0][0]) if bad else w, lhs=[t[:80] for _, t in bad][:2] or [t[:80] for _, _, t in b.filters][:1],
+                  rhs="[v for v in enum if v is not None]")
+        rep.require(b.L, f"the null-free value list of {k}")
+        rep.require(b.T, f"the set of member types of {k}")
+        rep.require(b.ty, f"the single member type of {k}")
+        rep.require(b.ctors, f"construction of the {cname} in {k}")
+        rep.require(b.conv, f"conversion of the default in {k}")
+        n_facts += 1
+
+        def run(**sc: Any) -> list[Path]:
+            # decisions a scenario does not speak about take their everyday value (a supported type, a free class name, a valid
+            # default), so that a path that leaves the allowed region is followed to a definite end
+            return b.sim({"type": "str", "P": False, "D": False, **sc}).paths()
+
+        # ---- only nulls -> NoneProperty ----------------------------------------------------------------------------------
+        _claim_all(rep, rid, f"{k}::only-null", run(nE=1, nL=0, nT=0), lambda p: b.end_kind(p) == "none" and not b.constructs(p), b.relevant,
+                   "an enum that lists only null is not turned into a NoneProperty", w, "return NoneProperty.build(...)")
+        # ---- one type, a supported one -----------------------------------------------------------------------------------
+        _claim_all(rep, rid, f"{k}::single-type", run(nE=2, nL=2, nT=2), lambda p: b.end_kind(p) == "error" and not b.constructs(p), b.relevant,
+                   "values of more than one type are not rejected", w, "return PropertyError(...)")
+        for ty in ("float", "bool"):
+            _claim_all(rep, rid, f"{k}::supported-type[{ty}]", run(nE=2, nL=2, nT=1, type=ty),
+                       lambda p: b.end_kind(p) == "error" and not b.constructs(p), b.relevant,
+                       f"members of type {ty} are not rejected", w, "return PropertyError(...)")
+        n_facts += 4
+        for ty in ("str", "int"):
+            # ---- a null member makes the property nullable ---------------------------------------------------------------
+            def nullable(p: Path) -> bool:
+                made_null = any(isinstance(c, ast.Call) and any(kw.arg == "type" and norm(kw.value).endswith("NULL") for kw in c.keywords)
+                                for s in p.stmts() for c in _calls_through(b, s))
+                return b.end_kind(p) == "union" and not b.constructs(p) and made_null
+
+            _claim_all(rep, rid, f"{k}::null-member[{ty}]", run(nE=3, nL=2, nT=1, type=ty), nullable, b.relevant,
+                       "null among the values does not lead to a nullable union (null-typed member + the enum without null)", w,
+                       "oneOf [Schema(type=NULL), enum without null] -> UnionProperty.build")
+            # ---- no null: the enum itself, members from the null-free list -------------------------------------------------
+            plain = run(nE=2, nL=2, nT=1, type=ty, P=False)
+            built = [p for p in plain if b.constructs(p)]
+            rep.check(bool(built) and not any(b.end_kind(p) in ("none", "union") for p in plain), rid, f"{k}::plain[{ty}]",
+                      f"a {ty} enum without null is not built as {cname}", w, lhs=sorted({b.end_kind(p) for p in plain}), rhs=f"{cname}(...)")
+            n_facts += 2
+        # members come from the null-free list
+        for c in b.ctors:
+            v = next(kw.value for kw in c.keywords if kw.arg == "values")
+            deps = _deps(b, v)
+            rep.check(bool(deps & b.L) and not (deps & b.E) and not any(b._enum_read(n) for n in ast.walk(v)), rid, f"{k}::members-null-free",
+                      "the member table is not computed from the list the nulls were removed from", where(f, c), lhs=sorted(deps),
+                      rhs="values_from_list(<null-free list>) / set(<null-free list>)")
+            n_facts += 1
+        # ---- a taken class name ----------------------------------------------------------------------------------------------
+        rep.require(b.existing, f"lookup of the class name in classes_by_name in {k}")
+        for a_, b_ in ((False, False), (False, True), (True, True)):
+            _claim_all(rep, rid, f"{k}::existing-class[same-class={a_},members-differ={b_}]", run(nE=2, nL=2, nT=1, type="str", P=True, A=a_, B=b_),
+                       lambda p: b.end_kind(p) == "error" and not b.registers(p), b.relevant,
+                       "the class name is taken by " + ("an enum with other members" if a_ else "something that is not this kind of enum") +
+                       " and the builder does not report a conflict", w, "return PropertyError(...)")
+        if b.mapping:
+            _claim_all(rep, rid, f"{k}::existing-class[same-class=True,same-names-other-values]", run(nE=2, nL=2, nT=1, P=True, A=True, B="values"),
+                       lambda p: b.end_kind(p) == "error" and not b.registers(p), b.relevant,
+                       "the class name is taken by an enum with the same member names but other values and the builder does not report a "
+                       "conflict (the comparison looks at the member names only)", w, "return PropertyError(...)")
+            n_facts += 1
+        reuse = run(nE=2, nL=2, nT=1, type="str", P=True, A=True, B=False)
+        rep.check(any(b.constructs(p) for p in reuse), rid, f"{k}::existing-class[same-class=True,members-differ=False]",
+                  "an identical enum can no longer be declared twice", w, lhs=sorted({b.end_kind(p) for p in reuse}), rhs=f"{cname}(...)")
+        n_facts += 4
+        # ---- the default ---------------------------------------------------------------------------------------------------------
+        conv_calls = [v for nm in b.conv for v in b.lc.values_of(nm) if isinstance(v, ast.Call)]
+        rep.check(any("default" in norm(a) for c in conv_calls for a in [*c.args, *[kw.value for kw in c.keywords]]), rid,
+                  f"{k}::default-converted", "convert_value is not applied to the schema's default", w, lhs=[norm(c) for c in conv_calls][:2],
+                  rhs="convert_value(data.default)")
+        _claim_all(rep, rid, f"{k}::default-rejected", run(nE=2, nL=2, nT=1, type="str", P=False, D=True),
+                   lambda p: b.end_kind(p) == "error" and not b.registers(p), b.relevant,
+                   "a default that convert_value rejects does not end the build with that error (or the class is registered anyway)", w,
+                   "return <error>, schemas (nothing registered)")
+
+        def accepted(p: Path) -> bool:
+            if b.end_kind(p) != "value" or not b.registers(p):
+                return False
+            return _carries_converted_default(b, p)
+
+        _claim_all(rep, rid, f"{k}::default-accepted", run(nE=2, nL=2, nT=1, type="str", P=False, D=False), accepted, b.relevant,
+                   "the property that is returned and registered does not carry the converted default", w,
+                   "evolve(prop, default=<convert_value result>) registered in classes_by_name")
+        n_facts += 3
+    rep.floor("enum_builder_facts", n_facts, 2 * 17 + 1)
+
+
+def _calls_through(b: _Builder, s: ast.AST) -> list[ast.Call]:
+    out = []
+    todo = [s]
+    seen: set[str] = set()
+    while todo:
+        n = todo.pop()
+        it = walk_own(n) if isinstance(n, ast.stmt) and not isinstance(n, (ast.FunctionDef, ast.AsyncFunctionDef)) else ast.walk(n)
+        for c in it:
+            if isinstance(c, ast.Call):
+                out.append(c)
+                last = call_name(c).rsplit(".", 1)[-1]
+                if last in b.helpers and last not in seen:
+                    seen.add(last)
+                    todo.append(b.helpers[last].node)
+    return out
+
+
+def _deps(b: _Builder, e: ast.expr) -> set[str]:
+    """locals the expression is computed from; the null-free list is a leaf (what it is computed from is the business of the
+    null-extraction fact)"""
+    seen: set[str] = set()
+    todo = list(names_in(e) & b.locals)
+    while todo:
+        nm = todo.pop()
+        if nm in seen:
+            continue
+        seen.add(nm)
+        if nm in b.L:
+            continue
+        for v in b.lc.values_of(nm):
+            todo += list(names_in(v) & b.locals)
+    return seen
+
+
+def _carries_converted_default(b: _Builder, p: Path) -> bool:
+    """the returned property is (bound to) a call with default=<local bound to convert_value(...)>"""
+    s = p.end
+    if not isinstance(s, ast.Return) or s.value is None:
+        return False
+    first = s.value.elts[0] if isinstance(s.value, ast.Tuple) and s.value.elts else s.value
+    st = p.end_state
+    r = st.get(("v", first.id), first) if isinstance(first, ast.Name) else first
+    for c in calls_in(r):
+        for kw in c.keywords:
+            if kw.arg == "default":
+                v = kw.value
+                if isinstance(v, ast.Name) and v.id in b.conv:
+                    return True
+                if isinstance(v, ast.Call) and isinstance(v.func, ast.Attribute) and v.func.attr == "convert_value":
+                    return True
+    return False
+
+
+# =====================================================================================================================
+# the two enum merge functions
+# =====================================================================================================================
+
+class _Merge:
+    def __init__(self, ix: Any, f: FuncInfo, cls_name: str):
+        self.ix, self.f, self.K = ix, f, cls_name
+        self.fn = f.node
+        ps = [p.arg for p in f.params]
+        if len(ps) != 2:
+            raise AnalysisError(f"anchor missing: the two properties merged by {f.name}")
+        self.p = {ps[0]: 1, ps[1]: 2}
+        self.locals = local_names(self.fn)
+        self.err = error_names(self.fn)
+        self.n_subset = 0
+
+    def side(self, e: ast.expr, st: State, sim: PathSim) -> "int | None":
+        """1 / 2: the expression stands for the first / second property on this path"""
+        e = sim.resolve(e, st)
+        if isinstance(e, ast.Name):
+            return self.p.get(e.id)
+        return None
+
+    def values_side(self, e: ast.expr, st: State, sim: PathSim) -> "int | None":
+        """the property whose member table the expression reads (p.values, set(p.values.items()), ...)"""
+        e = sim.resolve(e, st)
+        hits = set()
+        for n in ast.walk(e):
+            if isinstance(n, ast.Attribute) and n.attr == "values":
+                s = self.side(n.value, st, sim)
+                if s is not None:
+                    hits.add(s)
+        return next(iter(hits)) if len(hits) == 1 else None
+
+    def subset(self, e: ast.expr, st: State, sim: PathSim, depth: int = 0) -> "tuple[int, int, bool] | None":
+        """(i, j, strict): the expression decides `members of property i are a (strict) subset of the members of property j`"""
+        if isinstance(e, ast.Compare) and len(e.ops) == 1 and isinstance(e.ops[0], (ast.LtE, ast.GtE, ast.Lt, ast.Gt)):
+            a, b = self.values_side(e.left, st, sim), self.values_side(e.comparators[0], st, sim)
+            if a and b and a != b:
+                i, j = (a, b) if isinstance(e.ops[0], (ast.LtE, ast.Lt)) else (b, a)
+                return (i, j, isinstance(e.ops[0], (ast.Lt, ast.Gt)))
+        if isinstance(e, ast.Call) and isinstance(e.func, ast.Attribute) and e.func.attr in ("issubset", "issuperset") and len(e.args) == 1:
+            a, b = self.values_side(e.func.value, st, sim), self.values_side(e.args[0], st, sim)
+            if a and b and a != b:
+                return (a, b, False) if e.func.attr == "issubset" else (b, a, False)
+        if isinstance(e, ast.Call) and depth == 0 and not e.keywords and len(e.args) == 2:
+            # a helper of the module that decides the subset relation of its two parameters
+            h = next((g for g in self.ix.all_functions if g.name == call_name(e).rsplit(".", 1)[-1] and g.module is self.f.module and g.cls is None), None)
+            sides = [self.side(a, st, sim) for a in e.args]
+            if h is not None and len(h.params) == 2 and all(sides) and sides[0] != sides[1]:
+                rets = [r.value for r in ast.walk(h.node) if isinstance(r, ast.Return) and r.value is not None]
+                if len(rets) == 1:
+                    inner = _Merge.__new__(_Merge)
+                    inner.__dict__.update(self.__dict__)
+                    inner.p = {h.params[0].arg: sides[0], h.params[1].arg: sides[1]}
+                    return inner.subset(rets[0], {}, PathSim(h.node), depth + 1)
+        return None
+
+    def sim(self, sc: dict[str, Any]) -> PathSim:
+        kinds = sc["kinds"]  # side -> "enum" | "int" | "str" | "other"
+
+        def leaf(e: ast.expr, st: State, sim: PathSim) -> "bool | None":
+            if isinstance(e, ast.Call) and call_name(e) == "isinstance" and len(e.args) == 2:
+                s = self.side(e.args[0], st, sim)
+                if s is None:
+                    return None
+                names = _class_names(e.args[1])
+                known = {self.K: "enum", "IntProperty": "int", "StringProperty": "str"}
+                if all(n in known for n in names):
+                    return kinds[s] in {known[n] for n in names}
+                return None
+            sub = self.subset(e, st, sim) if isinstance(e, (ast.Compare, ast.Call)) else None
+            if sub is not None:
+                i, j, strict = sub
+                rel = sc.get("subset", {})
+                if rel.get((i, j)) is None or (strict and rel.get((j, i)) is None):
+                    return None
+                return rel[(i, j)] and not (strict and rel[(j, i)])
+            if isinstance(e, ast.Compare) and len(e.ops) == 1 and isinstance(e.ops[0], (ast.Is, ast.IsNot, ast.Eq, ast.NotEq)):
+                a, b = e.left, e.comparators[0]
+                for x, y in ((a, b), (b, a)):
+                    if isinstance(x, ast.Attribute) and x.attr == "value_type" and isinstance(y, ast.Name) and y.id in ("int", "str", "float", "bool"):
+                        s = self.side(x.value, st, sim)
+                        if s is not None and kinds[s] == "enum" and sc.get("value_type"):
+                            return _cmp(e.ops[0], sc["value_type"], y.id)
+            return None
+
+        return PathSim(self.fn, leaf)
+
+    def relevant(self, t: ast.AST) -> bool:
+        return bool(names_in(t) & (self.locals | set(self.p))) or _private_call(t)
+
+    def is_error(self, p: Path) -> bool:
+        return p.end is not None and (isinstance(p.end, ast.Raise) or returns_error(p.end, self.err))
+
+    def result_base(self, p: Path, sim: PathSim) -> "tuple[int | None, int | None, int | None]":
+        """(side of the property the result is built from, side its `values` come from, side its `class_info` comes from)"""
+        if not isinstance(p.end, ast.Return) or p.end.value is None:
+            return (None, None, None)
+        st = p.end_state
+        v = sim.resolve(p.end.value, st)
+        if not isinstance(v, ast.Call) or not v.args:
+            return (None, None, None)
+        base = sim.resolve(v.args[0], st)
+        vs = ci = None
+        if isinstance(base, ast.Call) and base.args:  # evolve(<prop>, values=..., class_info=...)
+            for kw in base.keywords:
+                r = sim.resolve(kw.value, st)
+                if isinstance(r, ast.Attribute):
+                    s = self.side(r.value, st, sim)
+                    if kw.arg == "values" and r.attr == "values":
+                        vs = s
+                    if kw.arg == "class_info" and r.attr == "class_info":
+                        ci = s
+            base = sim.resolve(base.args[0], st)
+        return (self.side(base, st, sim), vs, ci)
 
 
 def enum_merge_parity(rep: Report, ctx: Any, rid: str) -> None:
+    """Entry point kept under its historical name: the facts below are checked on each merge function independently."""
     ix = ctx.py
-    a = ix.func("merge_properties._merge_with_enum")
-    b = ix.func("merge_properties._merge_with_literal_enum")
-    sa_, sb_ = _alpha(a), _alpha(b)
+    rep.rule(rid, "each enum merge function (_merge_with_enum, _merge_with_literal_enum), on its own: two enums merge to the one "
+                  "whose members are a subset of the other's (both directions are tried, values and class come from the "
+                  "narrower one) and are an error when neither is; an enum merges with a plain property only when that is "
+                  "an IntProperty / StringProperty matching the enum's value type (result built from the enum), otherwise it "
+                  "is an error")
+    n = 0
+    for fname, cname in (("merge_properties._merge_with_enum", "EnumProperty"), ("merge_properties._merge_with_literal_enum", "LiteralEnumProperty")):
+        f = ix.func(fname)
+        m = _Merge(ix, f, cname)
+        w = where(f, f.node)
+        k = short(f)
+        both = {1: "enum", 2: "enum"}
+        # ---- two enums ------------------------------------------------------------------------------------------------------
+        for s12, s21 in ((False, False), (True, False), (False, True), (True, True)):
+            sim = m.sim({"kinds": both, "subset": {(1, 2): s12, (2, 1): s21}})
+            paths = sim.paths()
+            key = f"{k}::two-enums[1<=2:{s12},2<=1:{s21}]"
+            if not (s12 or s21):
+                _claim_all(rep, rid, key, paths, m.is_error, m.relevant, "enums with incompatible member lists are merged", w, "return PropertyError(...)")
+            else:
+                want = 1 if s12 else 2
 
-    def canon(s: str) -> str:
-        s = re.sub(r"_values_are_subset\((\w+), (\w+)\)", r"\1.values <= \2.values", s)
-        s = re.sub(r"'[^']*can\\?'t[^']*'|\"[^\"]*can't[^\"]*\"", "'MSG'", s)
-        s = re.sub(r"f'can\\?'t combine enum of type|f\"can't combine enum of type", "f'MSG", s)
-        return s
+                def narrow(p: Path, sim: PathSim = sim, want: int = want, both_: bool = s12 and s21) -> bool:
+                    if m.is_error(p):
+                        return False
+                    _, vs, ci = m.result_base(p, sim)
+                    return vs is not None and vs == ci and (both_ or vs == want)
 
-    ca, cb = [canon(x) for x in sa_], [canon(x) for x in sb_]
-    sm = difflib.SequenceMatcher(a=ca, b=cb, autojunk=False)
-    for tag, i1, i2, j1, j2 in sm.get_opcodes():
-        if tag == "equal":
-            for k in range(i1, i2):
-                rep.ok(rid, f"enum-merge::stmt[{ca[k][:50]}]", "_merge_with_enum", "= _merge_with_literal_enum")
-            continue
-        left, right = ca[i1:i2], cb[j1:j2]
-        # message texts may differ
-        if all("PropertyError(detail=" in x for x in left + right) and len(left) == len(right):
-            continue
-        rep.fail(rid, f"enum-merge::differs[{(left or right)[0][:60]}]",
-                 f"the two enum merge functions disagree: {left[:2]} vs {right[:2]}", where(a, a.node) + " / " + where(b, b.node),
-                 lhs=left[:2], rhs=right[:2])
+                _claim_all(rep, rid, key, paths, narrow, m.relevant,
+                           "the merged enum does not take its members and class from the property whose members are the subset", w,
+                           f"values / class_info of property {want}")
+            n += 1
+        # ---- one enum, one plain property -----------------------------------------------------------------------------------------
+        for es in (1, 2):
+            for kind in ("int", "str", "other"):
+                for vt in ("int", "str"):
+                    kinds = {es: "enum", 3 - es: kind}
+                    sim = m.sim({"kinds": kinds, "value_type": vt})
+                    paths = sim.paths()
+                    key = f"{k}::enum-with-plain[enum={es},plain={kind},value_type={vt}]"
+                    if kind == vt:
+                        def from_enum(p: Path, sim: PathSim = sim, es: int = es) -> bool:
+                            return not m.is_error(p) and m.result_base(p, sim)[0] == es
+
+                        _claim_all(rep, rid, key, paths, from_enum, m.relevant,
+                                   "an enum and a plain property of its value type do not merge into the enum", w, f"built from property {es}")
+                    else:
+                        _claim_all(rep, rid, key, paths, m.is_error, m.relevant,
+                                   "an enum is merged with a property that is not of its value type", w, "return PropertyError(...)")
+                    n += 1
+    rep.floor("enum_merge_facts", n, 2 * 16)
